@@ -213,14 +213,45 @@ FMT_MODEL = {"csr_array": "csr", "csr_matrix": "csr", "lil_array": "csr", "csc_a
              "coo_array": "coo", "coo_matrix": "coo", True: "csr"}
 
 
+ROLE_MODEL = {"obj": "obj", "cstr": "cstr", "cstr-eq": "cstr", "obs": "obs", "obs-noiter": "obs"}
+
+
+def nio_point(case, req, info=None):
+    """The physical-coordinates point of a request made through `problem.new_iter_observables` (the copy of an
+    observable preprocessed for physical coordinates whatever the configuration), or None when the request is made
+    through the accessor of the function's role instead.  With functions of physical coordinates it is the same request;
+    with normalized functions only a VALUE request at a point without off-grid integer component is the same request
+    (Props/C01 `newIter_value_request_eq`): Jacobians are then w.r.t. other coordinates, and off-grid components
+    are recorded under another point."""
+    name, kind, x, *rest = req
+    if not rest or rest[0] != "nio" or case["fns"].get(name, {}).get("kind") != "obs":
+        return None
+    lb, ub, ints, mask, _ = info or space_info(case)
+    norm = case_cfg(case)[0]
+    xs = [Fraction(t) for t in x]
+    if len(xs) != len(lb):
+        return None
+    conv = [l + xi * (u - l) if (norm and nm) else xi for xi, l, u, nm in zip(xs, lb, ub, mask)]
+    if not norm or (kind == "val" and not off_grid(conv, ints) and dyadic(conv)):
+        return conv
+    return None
+
+
 def case_lines(case) -> list[str]:
     lines = model_lines(case_hist(case))
     lines.append("cfg " + " ".join(str(int(b)) for b in case_cfg(case)))
     for name, fn in case["fns"].items():
         fmt = FMT_MODEL.get(fn.get("sparse") or "dense", "dense")
-        lines.append(f"fn {name} " + "|".join(f"{c}:{','.join(map(str, a))}:{','.join(map(str, q))}" for c, a, q in fn["rows"]) + " " + fmt)
-    for name, kind, x, *_ in case["reqs"]:
-        lines.append(f"{kind} {name} {','.join(x)}")
+        lines.append(f"fn {name} " + "|".join(f"{c}:{','.join(map(str, a))}:{','.join(map(str, q))}" for c, a, q in fn["rows"]) + " " + fmt
+                     + " " + ROLE_MODEL.get(fn.get("kind", "obj"), "obj"))
+    info = space_info(case)
+    for req in case["reqs"]:
+        name, kind, x = req[:3]
+        conv = nio_point(case, req, info)
+        if conv is None:
+            lines.append(f"{kind} {name} {','.join(x)}")
+        else:
+            lines.append(f"{kind} {name} {','.join(rat(t) for t in conv)} nio")
     return lines
 
 
@@ -326,7 +357,8 @@ def run_impl(case):
     # callers commonly reuse ONE array object and update it in place between requests
     reuse = bool(case.get("reuse_array", False))
     buf = None
-    lbs, ubs, ints_, mask, _sh = space_info(case)
+    info = space_info(case)
+    lbs, ubs, ints_, mask, _sh = info
     norm_cfg = case_cfg(case)[0]
     for name, kind, x, *rest in case["reqs"]:
         via = rest[0] if rest else "direct"
@@ -349,12 +381,8 @@ def run_impl(case):
                 xa = np.array([float(c) for c in conv])
         target = fmap[name]
         if via == "nio":
-            # the observable of the new-iteration list takes physical coordinates whatever the configuration: the same
-            # request as through the observable itself when the functions take physical coordinates; with normalized
-            # functions only a value request at a point without off-grid integer component is the same request
-            xs = [Fraction(t) for t in x]
-            conv = [l + xi * (u - l) if (norm_cfg and nm) else xi for xi, l, u, nm in zip(xs, lbs, ubs, mask)]
-            if "nio:" + name in fmap and (not norm_cfg or (kind == "val" and not off_grid(conv, ints_) and dyadic(conv))):
+            conv = nio_point(case, [name, kind, x, via], info)
+            if conv is not None:
                 target = fmap["nio:" + name]
                 xa = np.array([float(c) for c in conv])
             else:
@@ -756,14 +784,18 @@ def run(ctx) -> Result:
         "of a bound in both directions, rename, remove+add, filter, filter_dimensions, integer-normalization toggle, current-value "
         "setters; float/integer/all-integer, finite/infinite/equal bounds; queries filling the caches between edits or not; "
         "problem created before or after the edits) x all preprocessing switches (normalized, database, store_jacobian, round_ints, "
-        "support_sparse_jacobian) x objective/constraint/observable polynomial functions (user Jacobian dense 2-D / 1-D gradient / "
+        "support_sparse_jacobian) x function roles (objective, inequality constraint, observable, optional equality constraint and "
+        "observable outside the new-iteration list; in 40% of the cases the same user polynomial in every role) x polynomial functions (user Jacobian dense 2-D / 1-D gradient / "
         "scipy CSR, CSC, COO, LIL arrays and matrices; MDOLinearFunction with dense / 1-D / sparse coefficients; 1-4 outputs) x request "
-        "histories (value/Jacobian interleaved, >=40% repeated points, Jacobian before value, off-grid integers with fractional parts "
-        "on both sides of 1/2 when rounding; entry points evaluate/jac, func, evaluate_functions with normalized / physical / current "
-        "design vector); compared after every request; non-trivial = >= 3 requests"
+        "histories (value/Jacobian interleaved, >=40% repeated points, Jacobian before value, off-grid integer components with fractional "
+        "parts on both sides of 1/2: with rounding in normalized and physical coordinates, without rounding in physical coordinates; "
+        "entry points evaluate/jac, func, evaluate_functions with normalized / physical / current design vector, the copy of the "
+        "observable held by new_iter_observables); compared after every request; non-trivial = >= 3 requests"
     )
     res.assumptions = [
-        "integer components are given on-grid unless rounding is requested in normalized mode (the property does not define the physical point of an off-grid integer without rounding)",
+        "off-grid integer components are not given in normalized coordinates without rounding (unnormalize_vect rounds them, a normalized MDOLinearFunction does not: the property does not fix the physical point), nor through a normalized design vector handed by evaluate_functions to functions of physical coordinates",
+        "functions of physical coordinates with rounding: the record of an off-grid caller's point x is accepted under x (what the code does) or under its rounded image, memoization is demanded for the same caller's point",
+        "requests through new_iter_observables of a problem with normalized functions: value requests at points without off-grid integer component only (Jacobians are w.r.t. other coordinates there)",
         "design points lie within the bounds of the design space",
         "approximated derivatives are outside this check (C16)",
     ]
